@@ -283,8 +283,7 @@ def setup_from_parent_rules(chk, pid):
     stores = [e for e in S.events if e.kind == "store" and e.base[0] == "fld" and e.base[2] == "_universe" and e.base[1][0] == "fld" and e.base[1][2] == "parent"]
     ok = bool(stores) and stores[0].value == ("nan",) and stores[0].index[0] == "fld" and stores[0].index[2] == "name"
     chk.ob("C19.R4", ok, CORE, host, "dynamic-child-column", "a dynamically attached sub-strategy gets its price column in the parent's universe", where=fi.where)
-    ws = [w for w in S.events if w.kind == "write" and w.obj != SELF]
-    chk.ob("C19.R4", not ws, CORE, host, "dynamic-child-no-other-parent-writes", "nothing else of the parent is rewritten", where=fi.where, found="; ".join("%s.%s" % (short(w.obj, 40), w.field) for w in ws))
+
 
 
 def full_name_members(chk, pid):
